@@ -17,7 +17,7 @@ ASSUMPTIONS = [
 CASES = {"quick": 600000, "thorough": 20000000}
 MIN_CASES = {"quick": 100000, "thorough": 500000}
 REQUIRED_CLASSES = ["ext_tangent_axis", "int_tangent_axis", "ext_tangent_dir", "int_tangent_dir", "equal", "lens"]
-REQUIRED_COUNTERS = ["oracle_compared", "symmetry_checked", "reused_points_checked"]
+REQUIRED_COUNTERS = ["oracle_compared", "symmetry_checked", "reused_points_checked", "with_rectangle_tolerance_defined"]
 
 _f = None
 _Point = None
@@ -155,6 +155,12 @@ def exact_lens(c1, r1, c2, r2):
 def check(case, ctx):
     c1, r1, c2, r2 = case["c1"], case["r1"], case["c2"], case["r2"]
     P = _Point
+    from frame.geometry.geometry import Rectangle
+    if int(r1 * 1e6) % 2:
+        Rectangle.set_epsilon(1e-11 * 100 * max(r1, r2))      # as after loading a die a hundred radii wide
+        ctx.count("with_rectangle_tolerance_defined")
+    else:
+        Rectangle.undefine_epsilon()
     ok, v = ctx.call(_f, P(c1[0], c1[1]), r1, P(c2[0], c2[1]), r2)
     ok2, w = ctx.call(_f, P(c2[0], c2[1]), r2, P(c1[0], c1[1]), r1)
     exact, kind, d2 = exact_lens(c1, r1, c2, r2)
